@@ -493,3 +493,135 @@ for _cls in ("Energy", "Occupations"):
     register(Obligation(name=f"C17.json.object_hook.{_cls}", prop=PROP, engine="Z",
                         functions=["eminus.io.json:_custom_object_hook"], run=JsonHook(_cls), assumes=("engineZ",),
                         doc=f"JSON/HDF5 object hook restores every attribute of a stored {_cls} object (symbolic values)"))
+
+
+class TrajRoundTrip:
+    """write_traj([frame1, frame2], fods) -> read_traj: every frame returns every atom (and every FOD, written as pseudo-atoms) with its
+    species at its symbolic position, for every set order; frames are returned in the order written."""
+
+    def __init__(self, labels, with_fods):
+        self.labels, self.with_fods = labels, with_fods
+
+    def __call__(self, ob, tier, seed):
+        try:
+            return self.prove()
+        except (OutsideSubset, PyRaise, TypeError, AttributeError, KeyError, ValueError, IndexError, z3.Z3Exception) as e:
+            wit = dict(labels=self.labels, fods=self.with_fods)
+            ok, info = self.replay(wit)
+            if ok:
+                return Result(REFUTED, backend="native-contract-evaluation", witness=wit, replayed=True, replay_info=info,
+                              detail=f"TRAJ round trip fails natively (symbolic run left the subset: {type(e).__name__}: {e})")
+            return Result(UNDECIDED, backend="engine-Z", detail=f"outside subset: {type(e).__name__}: {e}")
+
+    def prove(self):
+        w = World()
+        mod = w.module("eminus.io.traj")
+        frames = []
+        for f in range(2):
+            at = make_atoms(w, self.labels)
+            for i in range(len(self.labels)):
+                for c in range(3):
+                    at.pos.a[i, c] = named(w, f"f{f}pos{i}{c}", "real")
+            frames.append(at)
+        fods = None
+        if self.with_fods:
+            fods = []
+            for s in range(2):
+                arr = NdArr((s + 1, 3))
+                for i in range(s + 1):
+                    for c in range(3):
+                        arr.a[i, c] = named(w, f"fod{s}{i}{c}", "real")
+                fods.append(arr)
+        store = {}
+        ext = io_ext(store)
+        ext["set"] = make_set
+
+        def run(it):
+            store.clear()
+            wr = it.lookup_global("write_traj", mod)
+            it.call(wr, [frames, "t.traj"], {"fods": fods} if fods is not None else {})
+            rd = it.lookup_global("read_traj", mod)
+            return it.call(rd, ["t.traj"], {}), None
+
+        res = explore(w, run, ext=ext, max_paths=200)
+        npaths = 0
+        for r in res:
+            npaths += 1
+            if r.outcome != "return":
+                return self.refute(f"reader/writer raised {r.outcome} ({r.value})")
+            traj = r.value
+            if len(traj) != 2:
+                return self.refute(f"{len(traj)} frames read, 2 written")
+            for f, (atom, pos) in enumerate(traj):
+                atom = [str(x.concrete() if hasattr(x, "concrete") else x) for x in atom]
+                P = pos.a if isinstance(pos, NdArr) else np.array([list(p) for p in pos], dtype=object)
+                want = [(lab, [frames[f].pos.a[i, c] for c in range(3)]) for i, lab in enumerate(self.labels)]
+                if fods is not None:
+                    for s, sym in enumerate(("X", "He")):
+                        for i in range(fods[s].a.shape[0]):
+                            want.append((sym, [fods[s].a[i, c] for c in range(3)]))
+                if len(atom) != len(want):
+                    return self.refute(f"frame {f}: {len(atom)} entries read, {len(want)} written")
+                used = set()
+                for lab, xyz in want:
+                    hit = None
+                    for j in range(len(atom)):
+                        if j in used or atom[j] != lab:
+                            continue
+                        if all(real_eq(w, r.path.pc, P[j, c], xyz[c]) for c in range(3)):
+                            hit = j
+                            break
+                    if hit is None:
+                        return self.refute(f"frame {f}: entry {lab} is not read back with its species at its position (species read {atom})")
+                    used.add(hit)
+        return Result(DISCHARGED, backend="z3", stats=dict(paths=npaths, frames=2, fods=bool(fods)))
+
+    def refute(self, msg):
+        wit = dict(labels=self.labels, fods=self.with_fods)
+        ok, info = self.replay(wit)
+        return Result(REFUTED, backend="engine-Z", witness=wit, replayed=ok, replay_info=info, detail=f"TRAJ round trip: {msg}")
+
+    def replay(self, wit):
+        import os
+        import tempfile
+
+        import eminus
+        from eminus import Atoms
+        from eminus.io import read_traj, write_traj
+
+        eminus.config.backend = "numpy"
+        eminus.config.verbose = "critical"
+        rng = np.random.default_rng(2)
+        labels = wit["labels"]
+        frames = [Atoms(labels, rng.uniform(0.5, 5.5, (len(labels), 3)), ecut=1, a=8) for _ in range(2)]
+        fods = [rng.uniform(0.5, 5.5, (1, 3)), rng.uniform(0.5, 5.5, (2, 3))] if wit["fods"] else None
+        with tempfile.TemporaryDirectory() as d:
+            fn = os.path.join(d, "t.traj")
+            write_traj(frames, fn, fods=fods)
+            out = read_traj(fn)
+        bad = []
+        if len(out) != 2:
+            bad.append(f"{len(out)} frames")
+        for f, (atom, pos) in enumerate(out[:2]):
+            pos = np.asarray(pos)
+            want = [(lab, np.asarray(frames[f].pos)[i]) for i, lab in enumerate(labels)]
+            if fods is not None:
+                want += [("X", p) for p in fods[0]] + [("He", p) for p in fods[1]]
+            if len(atom) != len(want):
+                bad.append(f"frame {f}: {len(atom)} entries instead of {len(want)}")
+                continue
+            used = set()
+            for lab, p in want:
+                hit = [j for j in range(len(atom)) if j not in used and atom[j] == lab and np.abs(pos[j] - p).max() < 1e-5]
+                if not hit:
+                    bad.append(f"frame {f}: {lab} lost")
+                else:
+                    used.add(hit[0])
+        return bool(bad), dict(check="native write_traj -> read_traj, two frames" + (" with FODs" if fods else ""), problems=bad)
+
+
+for _labels, _fods in ((["O", "H", "H"], False), (["O", "H", "H"], True), (["C", "O"], True)):
+    register(Obligation(name=f"C17.traj.roundtrip[{''.join(_labels)}{',fods' if _fods else ''}]", prop=PROP, engine="Z",
+                        functions=["eminus.io.traj:write_traj", "eminus.io.traj:read_traj", "eminus.io.xyz:write_xyz"], run=TrajRoundTrip(_labels, _fods),
+                        assumes=("engineZ", "z3", "float-format"), budget={"quick": 120, "thorough": 600},
+                        doc=f"TRAJ: two frames of {_labels}{' with FODs' if _fods else ''} written and read back: every frame returns every atom / FOD with its species at its (symbolic) position"))
